@@ -311,6 +311,20 @@ def run_history(H, vars_, tid, cfg):
     def B(t):
         return TM.build(t, "std", cache)
 
+    ever_held = {}
+
+    def snapshot_held(sid, so):
+        d = ever_held.setdefault(sid, {})
+        try:
+            held = list(so.constraints)
+            for ch in getattr(so, "_solver_list", []) or []:
+                held.extend(getattr(ch, "constraints", []))
+            for c in held:
+                if c.hash() not in d:
+                    d[c.hash()] = TM.ser(c)
+        except Exception:  # noqa: BLE001
+            pass
+
     def ev_base(call, s):
         return {"call": call, "s": s, "new": [], "e": DUMMY, "es": [], "n": 0, "v": DUMMY, "signed": False,
                 "extra": [], "cs": [], "others": [], "anc": -1, "ret": [], "rets": [], "groups": [], "scons": [],
@@ -426,7 +440,10 @@ def run_history(H, vars_, tid, cfg):
                     e["groups"].append([TM.ser(c) for c in p.constraints])
                     part_id += 1
             elif call == "unsat_core":
-                e["scons"] = [TM.ser(c) for c in sol.constraints]
+                # every constraint the solver (or, for a composite, one of its children) has held so far, including
+                # the simplified forms simplify() put in place of added ones: those are "tracked constraints" too
+                snapshot_held(s, sol)
+                e["scons"] = list(ever_held[s].values())
                 core = sol.unsat_core()
                 e["rets"] = [TM.ser(c) if isinstance(c, claripy.ast.Base) else ["NOTAST", type(c).__name__, [], []]
                              for c in core]
@@ -441,6 +458,11 @@ def run_history(H, vars_, tid, cfg):
         except Exception as ex:  # noqa: BLE001
             e["exc"] = type(ex).__name__
         finally:
+            if kw.get("track") and s in S:
+                snapshot_held(s, S[s])
+                for nn in e["new"]:
+                    if nn in S:
+                        ever_held.setdefault(nn, {}).update(ever_held.get(s, {}))
             if fault:
                 fired, cnt = Fault.disarm()
                 e["fired"] = fired
